@@ -292,6 +292,11 @@ reg("np.histogram", "np.histogram(a, bins=a2sorted, density=True)", "np.histogra
 reg("np.histogram2d", "np.histogram2d(a, c, bins=[a2sorted, csort])", "np.histogram2d(a, c, bins=[a2sorted, csort], density=True)")
 reg("np.histogramdd", "np.histogramdd((a, c), bins=[a2sorted, csort])", "np.histogramdd((a, c), bins=[a2sorted, csort], density=True)")
 reg("np.histogram_bin_edges", "np.histogram_bin_edges(a2, bins=asort) #K")
+# the two coordinates in different units of one dimension; one edge array shared by both, or one per axis in either unit
+reg("np.histogram2d", "np.histogram2d(a, a2, bins=asort)", "np.histogram2d(a, a2, bins=a2sorted)", "np.histogram2d(a2, a, bins=asort, density=True)", "np.histogram2d(a, a2, bins=[asort, a2sorted])",
+    "np.histogram2d(a, a2, bins=[a2sorted, asort])", "np.histogram2d(a2, a, bins=[asort, asort], weights=c)", "np.histogram2d(a, a2, bins=[3, asort])", "np.histogram2d(a, a2, bins=[a2sorted, 2])")
+reg("np.histogramdd", "np.histogramdd((a, a2), bins=[asort, asort])", "np.histogramdd((a2, a), bins=[asort, a2sorted], density=True)", "np.histogramdd((a, a2, b), bins=(a2sorted, asort, bsort))",
+    "np.histogramdd(np.stack([a, b], axis=1), bins=[a2sorted, a2sorted])")
 reg("np.pad", "np.pad(a, 1, constant_values=q2lo) #K", "np.pad(a, 1, mode='linear_ramp', end_values=q2hi) #K")
 reg("np.full_like", "np.full_like(a, q2lo) #K")
 reg("np.diff", "np.diff(a, prepend=a2[:1]) #K", "np.diff(a, append=a2[:2]) #K", "np.ediff1d(a, to_begin=a2[:1]) #K")
